@@ -411,6 +411,39 @@ Lemma rt_percent_copy_paste_refuted :
     distribute_slashed total pb n = Fatal.
 Proof. exists 30, 200, 100, 1. repeat split; reflexivity. Qed.
 
+(* ---------- (g) fee checks ---------- *)
+Lemma gas_price_total amount gas : exists p, gas_price amount gas = Ok p /\ (gas = 0 -> p = 0).
+Proof.
+  unfold gas_price. destruct ((amount =? 0) || (gas =? 0)) eqn:E.
+  - exists 0. split; [reflexivity|reflexivity].
+  - apply orb_false_iff in E as [_ E]. b2p. rewrite qquo_ok by exact E.
+    eexists. split; [reflexivity|contradiction].
+Qed.
+
+(* the minimum gas price check of transaction delivery never fails fatally (never panics),
+   for ANY fee shape: no fee, zero amount, zero gas, huge amount, gas 2^64-1 *)
+Lemma fee_check_total min_price fee : is_fatal (fee_check min_price fee) = false.
+Proof.
+  unfold fee_check. destruct (min_price =? 0); [reflexivity|].
+  destruct fee as [[a g]|]; [|reflexivity].
+  destruct (gas_price_total a g) as [p [E _]]. rewrite E. reflexivity.
+Qed.
+
+(* a fee with a positive amount and gas 0 has price 0: it is rejected under a positive minimum *)
+Lemma fee_check_zero_gas min_price amount :
+  min_price <> 0 -> fee_check min_price (Some (amount, 0)) = Ok false.
+Proof.
+  intros H. unfold fee_check, gas_price. rewrite (proj2 (N.eqb_neq _ 0) H).
+  rewrite N.eqb_refl, orb_true_r. cbn [bind].
+  destruct (0 <? min_price) eqn:E; [reflexivity|]. apply N.ltb_ge in E. lia.
+Qed.
+
+(* the && variant divides by a zero gas limit *)
+Lemma gas_price_and_refuted : forall amount, amount <> 0 -> gas_price_and amount 0 = Fatal.
+Proof.
+  intros a H. unfold gas_price_and. rewrite (proj2 (N.eqb_neq a 0) H). reflexivity.
+Qed.
+
 (* ---------- (d) slashing and debonding ---------- *)
 Lemma slash_pool_ok bal amount total :
   exists s, slash_pool bal amount total = Ok s /\ s <= bal.
